@@ -1,4 +1,6 @@
 import Driver.Loop
+import Driver.C17
+import Driver.C18
 
 /-- handlers of this executable; each builder adds `Driver.Cxx.handle` here -/
-def main : IO Unit := Driver.runMain []
+def main : IO Unit := Driver.runMain [Driver.C17.handle, Driver.C18.handle]
